@@ -498,6 +498,7 @@ pub fn flatten(m: &Model, ty: &str, v: &Val, out: &mut Vec<u64>) {
     }
 }
 
+#[derive(Clone)]
 pub enum OpIn {
     Build(Val),
     Parse(Vec<u8>),
@@ -652,8 +653,8 @@ fn cxx_flags(thorough: bool) -> Vec<&'static str> {
 }
 
 /// One state prepared for the C++ tier.
-struct Unit {
-    st: Selected,
+pub struct Unit {
+    pub st: Selected,
     inl_le: Desc,
     inl_be: Desc,
     text_le: String,
@@ -661,7 +662,7 @@ struct Unit {
     ns: String,
     code: String,
     fns: Vec<String>,
-    ops: Vec<Op>,
+    pub ops: Vec<Op>,
 }
 
 fn write_tu(dir: &Path, units: &[&Unit]) {
@@ -701,9 +702,12 @@ fn write_tu(dir: &Path, units: &[&Unit]) {
     std::fs::write(dir.join("task.txt"), task).expect("write");
 }
 
-fn compile(dir: &Path, hdr: &Path, thorough: bool) -> Built {
+fn compile(dir: &Path, hdr: &Path, thorough: bool, want_ndebug: bool) -> Built {
     let mut b = Built { asserts: None, ndebug: None, error: None };
     for (name, extra) in [("drv_assert", None), ("drv_ndebug", Some("-DNDEBUG"))] {
+        if extra.is_some() && !want_ndebug {
+            continue;
+        }
         let bin = dir.join(name);
         let mut c = Command::new("g++");
         c.args(cxx_flags(thorough)).arg("-I").arg(hdr);
@@ -744,7 +748,13 @@ fn gen_header(text: &str, ns: &str) -> Result<String, String> {
 }
 
 /// Generate headers and the driver section, enumerate the operations of one state.
-fn prepare(st: &Selected, hdr: &Path, thorough: bool, skipped_unspecified: &std::sync::atomic::AtomicUsize) -> Option<Unit> {
+/// Operations supplied from outside (C07): (type, input) lists per byte order, in order.
+pub struct ExtOps {
+    pub le: Vec<(String, OpIn)>,
+    pub be: Vec<(String, OpIn)>,
+}
+
+pub fn prepare(st: &Selected, hdr: &Path, thorough: bool, skipped_unspecified: &std::sync::atomic::AtomicUsize, ext: Option<&ExtOps>) -> Option<Unit> {
     let d_le = st.desc.with_endian(Endian::Little);
     let d_be = st.desc.with_endian(Endian::Big);
     let (inl_le, inl_be) = match (rules::inline_groups(&d_le), rules::inline_groups(&d_be)) {
@@ -767,7 +777,21 @@ fn prepare(st: &Selected, hdr: &Path, thorough: bool, skipped_unspecified: &std:
         let m_be = Model::new(&inl_be);
         let (code, fns, table) = emit_unit(&m_le, &types, &ns);
         let fn_idx = |big: bool, ty: &str, kind: char| table.iter().position(|(b, t, k)| *b == big && t == ty && *k == kind).unwrap();
+        if let Some(ext) = ext {
+            for (big, list) in [(false, &ext.le), (true, &ext.be)] {
+                for (ty, input) in list {
+                    if !types.contains(ty) {
+                        continue;
+                    }
+                    let kind = if matches!(input, OpIn::Build(_)) { 'b' } else { 'p' };
+                    ops.push(Op { big, ty: ty.clone(), input: input.clone(), fn_idx: fn_idx(big, ty, kind) });
+                }
+            }
+        }
         for (big, m, inl) in [(false, &m_le, &inl_le), (true, &m_be, &inl_be)] {
+            if ext.is_some() {
+                break;
+            }
             let vg = ValueGen { m, budget: if thorough { Budget::thorough() } else { Budget { max_values: 60, pairs: true, nested_alts: 3, max_array_len: 20 } } };
             for ty in &types {
                 let decl = m.decl(ty);
@@ -846,12 +870,7 @@ fn evaluate(u: &Unit, res_a: &[OpOut], res_n: &[OpOut], quiet_from: Option<usize
         let rare: &Vec<&str> = rare_cache.entry((op.big, op.ty.clone())).or_insert_with(|| {
             let cls = classes::construct_classes(inl, &op.ty);
             let mut rare: Vec<&str> = cls.iter().copied().filter(|c| ["padded-array", "payload-with-modifier", "elementsize-array", "optional", "enum-array", "array-modifier"].contains(c)).collect();
-            if inl.ancestry(&op.ty).iter().skip(1).any(|a| a.fields().iter().position(|f| f.is_payload()).map(|p| p + 1 < a.fields().len()).unwrap_or(false)) {
-                rare.push("fields-after-parent-payload");
-            }
-            if m.decl(&op.ty).parent().is_some() && m.decl(&op.ty).fields().iter().any(|f| pdlmc_core::rules::is_bitfield(inl, f) && pdlmc_core::rules::bitfield_width(inl, f).map(|w| w % 8 != 0).unwrap_or(false)) {
-                rare.push("child-with-sub-octet-fields");
-            }
+            rare.extend(cxx_markers(inl, &op.ty));
             rare
         });
         for (build, res) in [("assert", &res_a[k]), ("ndebug", &res_n[k])] {
@@ -1033,6 +1052,20 @@ pub fn diff_site(want: &model::Enc, got: &[u8], pos: usize, big: bool) -> String
     }
 }
 
+/// Constructs on which the C++ backend is known to misbehave (used in signatures only).
+pub fn cxx_markers(inl: &Desc, ty: &str) -> Vec<&'static str> {
+    let mut rare = vec![];
+    if inl.ancestry(ty).iter().skip(1).any(|a| a.fields().iter().position(|f| f.is_payload()).map(|p| p + 1 < a.fields().len()).unwrap_or(false)) {
+        rare.push("fields-after-parent-payload");
+    }
+    if let Some(decl) = inl.get(ty) {
+        if decl.parent().is_some() && decl.fields().iter().any(|f| pdlmc_core::rules::is_bitfield(inl, f) && pdlmc_core::rules::bitfield_width(inl, f).map(|w| w % 8 != 0).unwrap_or(false)) {
+            rare.push("child-with-sub-octet-fields");
+        }
+    }
+    rare
+}
+
 /// a struct that reaches itself through its fields (legal through unsized arrays)
 fn has_struct_cycle(d: &Desc) -> bool {
     fn reach(d: &Desc, from: &str, target: &str, seen: &mut Vec<String>) -> bool {
@@ -1077,12 +1110,28 @@ fn compile_failure(u: &Unit, err: &str) -> Verdicts {
 
 /// Compile and run a group of states as one translation unit; on a compile error fall back to
 /// one translation unit per state so that the error is attributed.
-fn run_group(units: &[&Unit], dir: &Path, hdr: &Path, thorough: bool, t_cc: &std::sync::atomic::AtomicU64, t_run: &std::sync::atomic::AtomicU64, machinery_errors: &std::sync::atomic::AtomicUsize) -> Vec<Verdicts> {
+/// What running one state's operations gave: a compile error attributed to it, or the raw
+/// observations of the assert build and (if requested) the NDEBUG build.
+pub enum Raw {
+    CompileError(String),
+    Ran { res_a: Vec<OpOut>, res_n: Option<Vec<OpOut>>, quiet_from: Option<usize> },
+}
+
+pub struct Timers {
+    pub cc: std::sync::atomic::AtomicU64,
+    pub run: std::sync::atomic::AtomicU64,
+}
+
+/// Compile and run a group of states as one translation unit; compile errors are attributed to
+/// the states g++ names (header s<id>_le.h / driver namespace drv_s<id>le) and the rest is
+/// recompiled; if nothing can be attributed, one translation unit per state. The result is
+/// aligned with `units`.
+pub fn run_group_raw(units: &[&Unit], dir: &Path, hdr: &Path, thorough: bool, want_ndebug: bool, t: &Timers) -> Vec<Raw> {
     std::fs::create_dir_all(dir).expect("mkdir");
     write_tu(dir, units);
     let t0 = std::time::Instant::now();
-    let built = compile(dir, hdr, thorough);
-    t_cc.fetch_add(t0.elapsed().as_millis() as u64, std::sync::atomic::Ordering::Relaxed);
+    let built = compile(dir, hdr, thorough, want_ndebug);
+    t.cc.fetch_add(t0.elapsed().as_millis() as u64, std::sync::atomic::Ordering::Relaxed);
     if let Some(err) = &built.error {
         let lines: Vec<&str> = err.lines().collect();
         let first_error = |mentions: &dyn Fn(&str) -> bool| -> Option<String> {
@@ -1095,53 +1144,83 @@ fn run_group(units: &[&Unit], dir: &Path, hdr: &Path, thorough: bool, t_cc: &std
         };
         if units.len() == 1 {
             let e = first_error(&|_| true).unwrap_or_else(|| lines.first().copied().unwrap_or("").to_string());
-            return vec![compile_failure(units[0], &e)];
+            return vec![Raw::CompileError(e)];
         }
-        // g++ names the header (s<id>_le.h) or the driver namespace (drv_s<id>le) of every error:
-        // drop exactly the states it names and recompile the rest; if nothing can be attributed,
-        // one translation unit per state
-        let mut out = vec![];
+        let mut out: Vec<Option<Raw>> = units.iter().map(|_| None).collect();
         let mut bad: Vec<usize> = vec![];
         for (k, u) in units.iter().enumerate() {
             let pats = [format!("{}_le.h", u.ns), format!("{}_be.h", u.ns), format!("drv_{}le::", u.ns), format!("drv_{}be::", u.ns), format!("{}le::", u.ns), format!("{}be::", u.ns)];
             if let Some(e) = first_error(&|l: &str| pats.iter().any(|p| l.contains(p.as_str()))) {
                 bad.push(k);
-                out.push(compile_failure(u, &e));
+                out[k] = Some(Raw::CompileError(e));
             }
         }
         if bad.is_empty() {
             for (k, u) in units.iter().enumerate() {
-                out.extend(run_group(&[*u], &dir.join(format!("u{k}")), hdr, thorough, t_cc, t_run, machinery_errors));
+                out[k] = run_group_raw(&[*u], &dir.join(format!("u{k}")), hdr, thorough, want_ndebug, t).pop();
             }
-            return out;
+        } else {
+            let rest_idx: Vec<usize> = (0..units.len()).filter(|k| !bad.contains(k)).collect();
+            let rest: Vec<&Unit> = rest_idx.iter().map(|k| units[*k]).collect();
+            if !rest.is_empty() {
+                for (k, r) in rest_idx.iter().zip(run_group_raw(&rest, &dir.join("rest"), hdr, thorough, want_ndebug, t)) {
+                    out[*k] = Some(r);
+                }
+            }
         }
-        let rest: Vec<&Unit> = units.iter().enumerate().filter(|(k, _)| !bad.contains(k)).map(|(_, u)| *u).collect();
-        if !rest.is_empty() {
-            out.extend(run_group(&rest, &dir.join("rest"), hdr, thorough, t_cc, t_run, machinery_errors));
-        }
-        return out;
+        return out.into_iter().map(|o| o.unwrap_or_else(|| Raw::CompileError("not compiled".into()))).collect();
     }
     let n_ops: usize = units.iter().map(|u| u.ops.len()).sum();
     let tf = dir.join("task.txt");
     let t1 = std::time::Instant::now();
     let (res_a, _) = run_driver(built.asserts.as_ref().unwrap(), &tf, n_ops);
-    let (res_n, quiet_from) = run_driver(built.ndebug.as_ref().unwrap(), &tf, n_ops);
-    t_run.fetch_add(t1.elapsed().as_millis() as u64, std::sync::atomic::Ordering::Relaxed);
+    let (res_n, quiet_from) = match &built.ndebug {
+        Some(b) => {
+            let (r, q) = run_driver(b, &tf, n_ops);
+            (Some(r), q)
+        }
+        None => (None, None),
+    };
+    t.run.fetch_add(t1.elapsed().as_millis() as u64, std::sync::atomic::Ordering::Relaxed);
     let mut out = vec![];
     let mut off = 0usize;
     for u in units {
         let n = u.ops.len();
         let q = quiet_from.and_then(|q| if q < off + n { Some(q.saturating_sub(off)) } else { None });
-        out.push(evaluate(u, &res_a[off..off + n], &res_n[off..off + n], q, machinery_errors));
+        out.push(Raw::Ran { res_a: res_a[off..off + n].to_vec(), res_n: res_n.as_ref().map(|r| r[off..off + n].to_vec()), quiet_from: q });
         off += n;
     }
     out
 }
 
+fn run_group(units: &[&Unit], dir: &Path, hdr: &Path, thorough: bool, t: &Timers, machinery_errors: &std::sync::atomic::AtomicUsize) -> Vec<Verdicts> {
+    run_group_raw(units, dir, hdr, thorough, true, t)
+        .into_iter()
+        .zip(units)
+        .map(|(raw, u)| match raw {
+            Raw::CompileError(e) => compile_failure(u, &e),
+            Raw::Ran { res_a, res_n, quiet_from } => evaluate(u, &res_a, res_n.as_deref().unwrap_or(&[]), quiet_from, machinery_errors),
+        })
+        .collect()
+}
+
 pub fn check(tier: Tier) -> i32 {
+    check_on(tier, None)
+}
+
+/// `only`: run on exactly these states (single-source / replay mode: no evidence or replay file
+/// is written) instead of the explored and selected ones.
+pub fn check_on(tier: Tier, only: Option<Vec<Selected>>) -> i32 {
     let mut ev = Evidence::new("C14", tier_name(tier));
-    let e = explore(tier);
-    let sel = select::select(&e, tier, Lang::Cxx, &|_, _| true);
+    let single = only.is_some();
+    let (e, sel) = match only {
+        Some(states) => (pdlmc_core::graph::Explored::default(), select::Selection { states, strata: vec![] }),
+        None => {
+            let e = explore(tier);
+            let sel = select::select(&e, tier, Lang::Cxx, &|_, _| true);
+            (e, sel)
+        }
+    };
     let root = PathBuf::from(format!("{VERIF_DIR}/work/cxx_{}", tier_name(tier)));
     let _ = std::fs::remove_dir_all(&root);
     let hdr = root.join("hdr");
@@ -1152,9 +1231,8 @@ pub fn check(tier: Tier) -> i32 {
     let group: usize = std::env::var("PDLMC_CXX_GROUP").ok().and_then(|s| s.parse().ok()).unwrap_or(12);
     // the C++ tier is the most expensive per state (two sanitizer builds): quick compiles every
     // `stride`-th selected state (fixed stride through the BFS order, reported)
-    let jobs: Vec<&Selected> = sel.states.iter().step_by(stride.max(1)).take(limit).collect();
-    let t_cc = std::sync::atomic::AtomicU64::new(0);
-    let t_run = std::sync::atomic::AtomicU64::new(0);
+    let jobs: Vec<&Selected> = sel.states.iter().step_by(if single { 1 } else { stride.max(1) }).take(limit).collect();
+    let timers = Timers { cc: std::sync::atomic::AtomicU64::new(0), run: std::sync::atomic::AtomicU64::new(0) };
     let machinery_errors = std::sync::atomic::AtomicUsize::new(0);
     let skipped_unspecified = std::sync::atomic::AtomicUsize::new(0);
     let not_generated = std::sync::atomic::AtomicUsize::new(0);
@@ -1165,7 +1243,7 @@ pub fn check(tier: Tier) -> i32 {
             let units: Vec<Unit> = sts
                 .iter()
                 .filter_map(|st| {
-                    let u = prepare(st, &hdr, thorough, &skipped_unspecified);
+                    let u = prepare(st, &hdr, thorough, &skipped_unspecified, None);
                     if u.is_none() {
                         not_generated.fetch_add(1, std::sync::atomic::Ordering::Relaxed);
                     }
@@ -1177,15 +1255,16 @@ pub fn check(tier: Tier) -> i32 {
                 return vec![];
             }
             let dir = root.join(format!("g{k}"));
-            let out = run_group(&refs, &dir, &hdr, thorough, &t_cc, &t_run, &machinery_errors);
+            let out = run_group(&refs, &dir, &hdr, thorough, &timers, &machinery_errors);
             if std::env::var("PDLMC_KEEP").is_err() {
                 let _ = std::fs::remove_dir_all(&dir);
             }
             out
         })
         .collect();
-    eprintln!("phases (cpu ms): g++={} drivers={}", t_cc.load(std::sync::atomic::Ordering::Relaxed), t_run.load(std::sync::atomic::Ordering::Relaxed));
+    eprintln!("phases (wall ms summed over groups): g++={} drivers={}", timers.cc.load(std::sync::atomic::Ordering::Relaxed), timers.run.load(std::sync::atomic::Ordering::Relaxed));
     let mut rep = Reporter::new("C14");
+    rep.dry = single;
     let mut counters: BTreeMap<String, usize> = BTreeMap::new();
     let mut samples = vec![];
     for (r, c, s) in per_task {
@@ -1225,6 +1304,9 @@ pub fn check(tier: Tier) -> i32 {
     let distinct = counters.iter().filter(|(k, v)| k.starts_with("outcome:") && **v > 0).count();
     ev.set("distinct_outcome_classes", json!(distinct));
     ev.set("machinery_errors", json!(machinery_errors.load(std::sync::atomic::Ordering::Relaxed)));
+    if single {
+        return code;
+    }
     ev.write(&format!("{VERIF_DIR}/evidence"));
     if distinct < 2 {
         eprintln!("machinery error: exploration produced {distinct} outcome class(es)");
